@@ -50,14 +50,27 @@ var targets = []string{
 	"secs2.decodeItem#header",
 	// sml: error positions and scanner helpers (C14)
 	"sml.newParseError", "sml.Parser.checkASCIICloseQuote", "sml.toUpperRune", "sml.getIntFormatCode",
+	// EFFECT MODE (translate_eff.go): the supervisor's per-goroutine code (C05)
+	"hsms.fsmEvent.withTag", "hsms.fsmEvent.split",
+	"hsms.supervisor.step", "hsms.supervisor.fireTransition", "hsms.supervisor.resolveCloseTimeout",
+	"hsms.supervisor.CommitConnected", "hsms.supervisor.CommitSelected", "hsms.supervisor.CommitSelectLost",
+	"hsms.supervisor.injectDisconnect", "hsms.supervisor.injectT7Timeout", "hsms.supervisor.State",
+	// EFFECT MODE: the HSMS-SS receive-side dispatcher and responders (C08)
+	"hsmsss.transport.dispatchFrame", "hsmsss.transport.handleControlReq", "hsmsss.transport.handleSelectReq",
+	"hsmsss.transport.handleDeselectReq", "hsmsss.transport.handleLinktestReq", "hsmsss.transport.handleSeparateReq",
+	"hsmsss.transport.sendReject", "hsmsss.transport.sendRejectNotSelected", "hsmsss.transport.sendRejectTransactionNotOpen",
+	"hsmsss.selectStatus",
+	// EFFECT MODE: the SECS-I inbound assembler (C17)
+	"secs1.assembler.accept", "secs1.assembler.beginMessage", "secs1.assembler.startMessage",
+	"secs1.assembler.appendBlock", "secs1.assembler.complete", "secs1.assembler.reset", "secs1.assembler.report",
 }
 
 // probes are known to be outside the subset; they are attempted on every run so that status.json records
 // the construct that keeps each of them out (and so that a refactoring which makes one translatable shows up).
 var probes = []string{
-	"hsms.nextBackoffDelay", "hsms.supervisor.step", "hsms.DecodeHSMSMessage", "hsms.decodeOwnedFrame", "hsms.NewDataMessage",
-	"hsms.replyRegistry.route", "hsmsss.transport.readFrame", "hsmsss.transport.dispatchFrame", "secs2.decodeItem",
-	"secs2.ListItem.EncodedLen", "secs1.assembler.accept", "sml.Parser.skipSpace",
+	"hsms.nextBackoffDelay", "hsms.supervisor.run", "hsms.supervisor.emit", "hsms.supervisor.requestClose", "hsms.DecodeHSMSMessage", "hsms.decodeOwnedFrame", "hsms.NewDataMessage",
+	"hsms.replyRegistry.route", "hsmsss.transport.readFrame", "hsmsss.transport.recvLoop", "secs2.decodeItem",
+	"secs2.ListItem.EncodedLen", "secs1.newAssembler", "sml.Parser.skipSpace",
 }
 
 func fileOfRel(rel string) string {
@@ -152,6 +165,64 @@ func emitFunctions(out string, status map[string]string) {
 	for _, k := range g.order {
 		mentions(g.fns[k].text)
 	}
+	ofValsNeeded := map[string]bool{}
+	for changed := true; changed; {
+		changed = false
+		for _, k := range g.structOrd {
+			si := g.structs[k]
+			if ofValsNeeded[k] {
+				continue
+			}
+			want := false
+			for _, fk := range g.order {
+				if strings.Contains(g.fns[fk].text, si.lean+".ofVals ") {
+					want = true
+				}
+			}
+			for _, k2 := range g.structOrd {
+				if ofValsNeeded[k2] {
+					for _, sf := range g.structs[k2].fields {
+						if sf.lt.k == kStruct && sf.lt.st == si {
+							want = true
+						}
+					}
+				}
+			}
+			if want {
+				ofValsNeeded[k] = true
+				changed = true
+			}
+		}
+	}
+	toValsNeeded := map[string]bool{}
+	for changed := true; changed; {
+		changed = false
+		for _, k := range g.structOrd {
+			si := g.structs[k]
+			if toValsNeeded[k] {
+				continue
+			}
+			want := false
+			for _, fk := range g.order {
+				if strings.Contains(g.fns[fk].text, si.lean+".toVals ") {
+					want = true
+				}
+			}
+			for _, k2 := range g.structOrd {
+				if toValsNeeded[k2] {
+					for _, sf := range g.structs[k2].fields {
+						if sf.lt.k == kStruct && sf.lt.st == si {
+							want = true
+						}
+					}
+				}
+			}
+			if want {
+				toValsNeeded[k] = true
+				changed = true
+			}
+		}
+	}
 	for _, k := range g.structOrd {
 		si := g.structs[k]
 		if !needed[k] {
@@ -230,6 +301,13 @@ func emitFunctions(out string, status map[string]string) {
 		for _, i := range imps {
 			fmt.Fprintf(&sb, "import GoSecs.Gen.%s\n", fileOfRel(i))
 		}
+		hasEff := false
+		for _, o := range f.fns {
+			hasEff = hasEff || o.eff
+		}
+		if hasEff {
+			sb.WriteString(effectTablesDoc())
+		}
 		fmt.Fprintf(&sb, "set_option linter.unusedVariables false\nnamespace GoSecs.Gen\n\n-- package %s\n\n", r)
 		for _, si := range f.structs {
 			fmt.Fprintf(&sb, "/-- Go struct %s (fields of untranslatable type are omitted; reference fields are `Bool` = non-nil) -/\n", si.key)
@@ -241,6 +319,51 @@ func emitFunctions(out string, status map[string]string) {
 			}
 			sb.WriteString("  deriving DecidableEq, Repr, Inhabited\n\n")
 			fmt.Fprintf(&sb, "/-- the zero value of %s -/\ndef %s.zero : %s := { %s }\n\n", si.key, si.lean, si.lean, strings.Join(zs, ", "))
+			if toValsNeeded[si.key] {
+				var vs []string
+				for _, sf := range si.fields {
+					fn := "x." + leanField(sf.goName)
+					switch sf.lt.k {
+					case kInt:
+						vs = append(vs, "[.int "+fn+"]")
+					case kBool:
+						vs = append(vs, "[.bool "+fn+"]")
+					case kBytes:
+						vs = append(vs, "[.bytes "+fn+"]")
+					case kErr:
+						vs = append(vs, "[.err "+fn+"]")
+					case kStruct:
+						vs = append(vs, sf.lt.st.lean+".toVals "+fn)
+					default:
+						vs = append(vs, "[.opaque]")
+					}
+				}
+				fmt.Fprintf(&sb, "/-- %s as effect-argument values: its fields in order (a nested struct contributes its own) -/\ndef %s.toVals (x : %s) : List Go.Val := %s\n\n", si.key, si.lean, si.lean, joinVals(vs))
+			}
+			if ofValsNeeded[si.key] {
+				// the inverse direction: a struct-valued oracle result reads its leaves off the oracle list
+				body := ""
+				var sets []string
+				for _, sf := range si.fields {
+					fn := leanField(sf.goName)
+					switch sf.lt.k {
+					case kInt:
+						body += fmt.Sprintf("  let %s := (Go.orc o).asInt\n  let o := o.tail\n", fn)
+					case kBool, kOpaque:
+						body += fmt.Sprintf("  let %s := (Go.orc o).asBool\n  let o := o.tail\n", fn)
+					case kBytes:
+						body += fmt.Sprintf("  let %s := (Go.orc o).asBytes\n  let o := o.tail\n", fn)
+					case kErr:
+						body += fmt.Sprintf("  let %s := (Go.orc o).asErr\n  let o := o.tail\n", fn)
+					case kStruct:
+						body += fmt.Sprintf("  let (%s, o) := %s.ofVals o\n", fn, sf.lt.st.lean)
+					default:
+						body += fmt.Sprintf("  let %s := %s\n", fn, zeroOf(sf.lt))
+					}
+					sets = append(sets, fn+" := "+fn)
+				}
+				fmt.Fprintf(&sb, "/-- %s as a struct-valued oracle result: its fields in order off the oracle list -/\ndef %s.ofVals (o : List Go.Val) : %s × List Go.Val :=\n%s  ({ %s }, o)\n\n", si.key, si.lean, si.lean, body, strings.Join(sets, ", "))
+			}
 		}
 		for _, o := range f.fns {
 			sb.WriteString(o.text)
